@@ -15,6 +15,17 @@ KEY_HASHES = ['tz1bsdUtmpeQuTPeNiVksrvuyLzrjHU6LLXG', 'tz1cWk3eUkCuPAUrzFy9dJi5B
               'tz1VSUr8wwNhLAzempoch5d6hLRiTh8Cjcjb', 'tz3WMqdzXqRWXwyvj5Hp2H7QEepaUuS7vd9K']
 SIMPLE = [('unit',), ('bool',), ('int',), ('nat',), ('mutez',), ('timestamp',), ('string',), ('bytes',), ('address',), ('chain_id',),
           ('key_hash',), ('key',)]
+# parameter sections of the running contract: (name, type expression with entrypoint annotations, entrypoint -> type)
+_A = lambda prim, ann, *args: {'prim': prim, 'annots': ['%' + ann], **({'args': list(args)} if args else {})}
+PARAMETERS = [
+    ('unit', {'prim': 'unit'}, {'default': ('unit',)}),
+    ('or-add-name', {'prim': 'or', 'args': [_A('nat', 'add'), _A('string', 'name')]},
+     {'default': ('or', ('nat',), ('string',)), 'add': ('nat',), 'name': ('string',)}),
+    ('nested', {'prim': 'or', 'args': [{'prim': 'or', 'args': [_A('unit', 'a'), _A('int', 'b')]}, _A('pair', 'c', {'prim': 'nat'}, {'prim': 'bool'})]},
+     {'default': ('or', ('or', ('unit',), ('int',)), ('pair', ('nat',), ('bool',))), 'a': ('unit',), 'b': ('int',), 'c': ('pair', ('nat',), ('bool',))}),
+]
+KT_ADDRS = ['KT1BEqzn5Wx8uJrZNvuS9DVHmLvG9td3fDLi', 'KT18amZmM5W7qDWVt2pH6uj7sCEd3kbzLrHT']
+TZ_ADDRS = ['tz1VSUr8wwNhLAzempoch5d6hLRiTh8Cjcjb', 'tz3WMqdzXqRWXwyvj5Hp2H7QEepaUuS7vd9K', 'tz2TSvNTh2epDMhZHrw73nV9piBX7kLZ9K9m']
 HASH_PRIMS = ['BLAKE2B', 'SHA256', 'SHA512', 'KECCAK', 'SHA3']
 SET_ELT = [('int',), ('nat',), ('string',), ('bytes',), ('bool',), ('mutez',), ('timestamp',)]
 COMPARABLE = [('int',), ('nat',), ('string',), ('bytes',), ('bool',), ('mutez',), ('timestamp',)]
@@ -28,6 +39,15 @@ def ty_mich(t):
 
 def ty_from_mich(m):
     return (m['prim'], *[ty_from_mich(a) for a in m.get('args', [])])
+
+
+def pushable(t):
+    """can a value of this type be written as a PUSH literal (no contract / operation outside a lambda's signature)"""
+    if t[0] in ('contract', 'operation', 'never'):
+        return False
+    if t[0] == 'lambda':
+        return True
+    return all(pushable(a) for a in t[1:])
 
 
 def comb_leaves(t):
@@ -72,6 +92,8 @@ class Gen:
         self.max_depth = max_depth
         self.used = {}
         self.shapes = {}
+        self.entrypoints = PARAMETERS[0][2]
+        self.in_lambda = 0      # SELF is not allowed inside a lambda
 
     def shape(self, key):
         """boundary shapes chosen by the generator (goes into the evidence)"""
@@ -173,7 +195,11 @@ class Gen:
             keys = self.distinct_sorted_keys(t[1], r.choice([0, 0, 1, 2, 3]))
             return [{'prim': 'Elt', 'args': [k, self.gen_value(t[2], depth - 1)]} for k in keys]
         if p == 'lambda':
-            return self.body_to([t[1]], [t[2]], r.choice([0, 1, 2]), depth=0)
+            self.in_lambda += 1
+            try:
+                return self.body_to([t[1]], [t[2]], r.choice([0, 1, 2]), depth=0)
+            finally:
+                self.in_lambda -= 1
         raise ValueError(t)
 
     def gen_key(self, kt):
@@ -252,8 +278,35 @@ class Gen:
         elif extra > 1:
             code.append({'prim': 'DROP', 'args': [{'int': str(extra)}]})
         for t in reversed(target[:len(target) - k]):
-            code.append({'prim': 'PUSH', 'args': [ty_mich(t), self.default_value(t)]})
+            code += self.produce(t)
         return code
+
+    def produce(self, t):
+        """code leaving one value of type `t` on the stack: a PUSH where the type is pushable, instructions otherwise"""
+        P = lambda prim, *args: {'prim': prim, 'args': list(args)} if args else {'prim': prim}
+        if pushable(t):
+            return [P('PUSH', ty_mich(t), self.default_value(t))]
+        p = t[0]
+        if p == 'operation':
+            return [P('NONE', ty_mich(('key_hash',))), P('SET_DELEGATE')]
+        if p == 'contract':
+            if t[1] == ('unit',):
+                return [P('PUSH', ty_mich(('key_hash',)), {'string': KEY_HASHES[0]}), P('IMPLICIT_ACCOUNT')]
+            return [P('PUSH', ty_mich(('address',)), {'string': KT_ADDRS[1]}), P('CONTRACT', ty_mich(t[1])),
+                    P('IF_NONE', [P('PUSH', ty_mich(('string',)), {'string': 'no contract'}), P('FAILWITH')], [])]
+        if p == 'option':
+            return [P('NONE', ty_mich(t[1]))]
+        if p == 'list':
+            return [P('NIL', ty_mich(t[1]))]
+        if p == 'map':
+            return [P('EMPTY_MAP', ty_mich(t[1]), ty_mich(t[2]))]
+        if p == 'pair':
+            return self.produce(t[2]) + self.produce(t[1]) + [P('PAIR')]
+        if p == 'or':
+            if t[1] != ('never',):
+                return self.produce(t[1]) + [P('LEFT', ty_mich(t[2]))]
+            return self.produce(t[2]) + [P('RIGHT', ty_mich(t[1]))]
+        raise ValueError(t)
 
     def body_to(self, st, target, n, depth):
         code, st2, dead = self.body(list(st), n, depth)
@@ -308,6 +361,9 @@ class Gen:
         add(0.5, 'EMPTY_SET', lambda: self._empty_set(st))
         add(1.6, 'CONV', lambda: self._conv_idiom(st))
         add(0.9, 'KEYS', lambda: self._key_idiom(st))
+        add(2.2, 'CONTRACTS', lambda: self._contract_idiom(st))
+        if not self.in_lambda:
+            add(0.6, 'SELF', lambda: self._self(st))
         if depth > 0:
             add(0.8, 'NEVER', lambda: self._never_idiom(st, depth))
         if depth > 0:
@@ -356,6 +412,17 @@ class Gen:
                 add(6, 'HASH_KEY', lambda: ([{'prim': 'HASH_KEY'}], [('key_hash',)] + st[1:]))
             if top[0] == 'key_hash':
                 add(6, 'VOTING_POWER', lambda: ([{'prim': 'VOTING_POWER'}], [('nat',)] + st[1:]))
+                add(5, 'IMPLICIT_ACCOUNT', lambda: ([{'prim': 'IMPLICIT_ACCOUNT'}], [('contract', ('unit',))] + st[1:]))
+            if top == ('option', ('key_hash',)):
+                add(8, 'SET_DELEGATE', lambda: ([{'prim': 'SET_DELEGATE'}], [('operation',)] + st[1:]))
+            if top[0] == 'contract':
+                add(8, 'ADDRESS', lambda: ([{'prim': 'ADDRESS'}], [('address',)] + st[1:]))
+            if top[0] == 'address':
+                add(5, 'CONTRACT', lambda: self._contract_instr(st))
+            if pushable(top) and top[0] != 'lambda':
+                add(0.6, 'EMIT', lambda: self._emit(st))
+            if len(st) >= 3 and st[1] == ('mutez',) and st[2] == ('contract', top):
+                add(20, 'TRANSFER_TOKENS', lambda: ([{'prim': 'TRANSFER_TOKENS'}], [('operation',)] + st[3:]))
             if top[0] == 'option' and depth > 0:
                 add(4, 'IF_NONE', lambda: self._if('IF_NONE', st[1:], [top[1]] + st[1:], depth))
             if top[0] == 'or' and depth > 0:
@@ -426,7 +493,7 @@ class Gen:
                 add(4, 'CONCAT', lambda: ([{'prim': 'CONCAT'}], st[1:]))
             if snd[0] == 'lambda' and snd[1] == top:
                 add(14, 'EXEC', lambda: ([{'prim': 'EXEC'}], [snd[2]] + st[2:]))
-            if snd[0] == 'lambda' and snd[1][0] == 'pair' and snd[1][1] == top and top[0] != 'lambda':
+            if snd[0] == 'lambda' and snd[1][0] == 'pair' and snd[1][1] == top and top[0] != 'lambda' and pushable(top):
                 add(14, 'APPLY', lambda: ([{'prim': 'APPLY'}], [('lambda', snd[1][2], snd[2])] + st[2:]))
         if depth > 0:
             add(2, 'LOOP', lambda: self._loop(st, depth))
@@ -709,6 +776,97 @@ class Gen:
             return [P('NIL', ty_mich(('never',))), P('ITER', [P('NEVER')])], st
         return [P('LAMBDA', ty_mich(('never',)), ty_mich(t), [P('NEVER')])], [('lambda', ('never',), t)] + st
 
+    # ---- phase C: contracts and operations -------------------------------------------------------------------------
+    def _ep_annot(self, names=('add', 'name', 'a', 'b', 'c', 'foo')):
+        r = self.rng
+        x = r.random()
+        if x < 0.45:
+            return None
+        if x < 0.55:
+            return 'default'
+        return r.choice(names)
+
+    def _contract_instr(self, st, t=None):
+        t = t or self.gen_type(1)
+        ep = self._ep_annot()
+        ins = {'prim': 'CONTRACT', 'args': [ty_mich(t)]}
+        if ep is not None:
+            ins['annots'] = ['%' + ep]
+        self.shape('CONTRACT ' + ('without annotation' if ep is None else ('%default' if ep == 'default' else '%entrypoint')))
+        return [ins], [('option', ('contract', t))] + st[1:]
+
+    def _self(self, st):
+        r = self.rng
+        ep = r.choice(sorted(self.entrypoints))
+        ins = {'prim': 'SELF'}
+        if ep != 'default' or r.random() < 0.3:
+            ins['annots'] = ['%' + ep]
+        self.shape('SELF ' + ('default' if ep == 'default' else '%entrypoint'))
+        code, st2 = [ins], [('contract', self.entrypoints[ep])] + st
+        if r.random() < 0.5:
+            self.note('ADDRESS')
+            code, st2 = code + [{'prim': 'ADDRESS'}], [('address',)] + st
+            if r.random() < 0.5:      # … and back: the address names the entrypoint, CONTRACT finds it again
+                self.note('CONTRACT')
+                code.append({'prim': 'CONTRACT', 'args': [ty_mich(self.entrypoints[ep])]})
+                st2 = [('option', ('contract', self.entrypoints[ep]))] + st
+        return code, st2
+
+    def _emit(self, st):
+        r = self.rng
+        ins = {'prim': 'EMIT', 'args': [ty_mich(st[0])]}
+        if r.random() < 0.7:
+            ins['annots'] = ['%' + r.choice(['tag', 'evt', 'x'])]
+        return [ins], [('operation',)] + st[1:]
+
+    def _contract_idiom(self, st):
+        """an address (originated / implicit, with / without `%entrypoint`) and CONTRACT (with / without annotation, `%default`,
+        of type unit / another type), then the handle is used: ADDRESS, TRANSFER_TOKENS (zero and non-zero amounts); implicit
+        accounts through IMPLICIT_ACCOUNT; SET_DELEGATE"""
+        r = self.rng
+        P = lambda prim, *args: {'prim': prim, 'args': list(args)} if args else {'prim': prim}
+        kind = r.choice(['contract', 'contract', 'contract', 'implicit', 'delegate'])
+        if kind == 'delegate':
+            self.note('SET_DELEGATE')
+            if r.random() < 0.4:
+                self.shape('SET_DELEGATE None')
+                return [P('NONE', ty_mich(('key_hash',))), P('SET_DELEGATE')], [('operation',)] + st
+            self.shape('SET_DELEGATE Some')
+            return [P('PUSH', ty_mich(('key_hash',)), {'string': r.choice(KEY_HASHES)}), P('SOME'), P('SET_DELEGATE')], [('operation',)] + st
+        if kind == 'implicit':
+            self.note('IMPLICIT_ACCOUNT')
+            code = [P('PUSH', ty_mich(('key_hash',)), {'string': r.choice(KEY_HASHES)}), P('IMPLICIT_ACCOUNT')]
+            t = ('unit',)
+            st2 = [('contract', t)] + st
+        else:
+            implicit = r.random() < 0.35
+            addr = r.choice(TZ_ADDRS if implicit else KT_ADDRS)
+            aep = r.choice([None, None, 'add', 'name', 'default', 'foo'])
+            t = r.choice([('unit',), ('unit',), ('nat',), ('string',), self.gen_type(1)]) if implicit else self.gen_type(1)
+            text = addr if aep is None else f'{addr}%{aep}'
+            self.shape('CONTRACT on ' + ('an implicit account' if implicit else 'an originated address') + (' naming an entrypoint' if aep not in (None, 'default') else (' %default' if aep else '')) +
+                       (', type unit' if t == ('unit',) else ', another type'))
+            c, st2 = self._contract_instr([('address',)] + st, t)
+            self.note('CONTRACT')
+            code = [P('PUSH', ty_mich(('address',)), {'string': text})] + c
+            k = r.random()
+            if k < 0.3:
+                return code, st2
+            # open the option: the None branch fails
+            code.append(P('IF_NONE', [P('PUSH', ty_mich(('string',)), {'string': 'none'}), P('FAILWITH')], []))
+            self.note('IF_NONE')
+            st2 = [('contract', t)] + st
+        k = r.random()
+        if k < 0.35:
+            self.note('ADDRESS')
+            return code + [P('ADDRESS')], [('address',)] + st
+        if k < 0.85 and pushable(t):
+            amount = r.choice([0, 0, 1, 5, 10**6, 2**63 - 1])
+            self.shape('TRANSFER_TOKENS amount ' + ('0' if amount == 0 else ('max' if amount == 2**63 - 1 else '>0')))
+            self.note('TRANSFER_TOKENS')
+            return code + [P('PUSH', ty_mich(('mutez',)), {'int': str(amount)}), self.push(t), P('TRANSFER_TOKENS')], [('operation',)] + st
+        return code, st2
+
     def _hash_idiom(self, st):
         """hash a pushed byte string (lengths around the block sizes of the five functions), sometimes twice"""
         r = self.rng
@@ -818,7 +976,11 @@ class Gen:
         a, b = self.gen_type(1), self.gen_type(1)
         if st and self.rng.random() < 0.6:      # make EXEC / APPLY reachable
             a = st[0] if self.rng.random() < 0.6 else ('pair', st[0], self.gen_type(1))
-        body = self.body_to([a], [b], self.rng.choice([0, 1, 2, 3]), depth - 1)
+        self.in_lambda += 1
+        try:
+            body = self.body_to([a], [b], self.rng.choice([0, 1, 2, 3]), depth - 1)
+        finally:
+            self.in_lambda -= 1
         code = [{'prim': 'LAMBDA', 'args': [ty_mich(a), ty_mich(b), body]}]
         new = [('lambda', a, b)] + st
         if st and a == st[0]:
@@ -828,7 +990,7 @@ class Gen:
                 self.note('EXEC')
                 code.append({'prim': 'EXEC'})
                 new = [b] + st[1:]
-        elif st and a[0] == 'pair' and a[1] == st[0] and st[0][0] != 'lambda':
+        elif st and a[0] == 'pair' and a[1] == st[0] and st[0][0] != 'lambda' and pushable(st[0]):
             code.append({'prim': 'SWAP'})
             new = [st[0], ('lambda', a, b)] + st[1:]
             if self.rng.random() < 0.6:
@@ -883,8 +1045,7 @@ class Gen:
         top = st[0]
         body = self.body_to([top[1]] + st[1:], [top] + st[1:], self.rng.choice([0, 1, 2]), depth - 1)
         # the fix-up pushes the default of `or a b`, which is a Left: make termination certain with a Right instead
-        body = body + [{'prim': 'DROP'}, {'prim': 'PUSH', 'args': [ty_mich(top[2]), self.default_value(top[2])]},
-                       {'prim': 'RIGHT', 'args': [ty_mich(top[1])]}]
+        body = body + [{'prim': 'DROP'}] + self.produce(top[2]) + [{'prim': 'RIGHT', 'args': [ty_mich(top[1])]}]
         return [{'prim': 'LOOP_LEFT', 'args': [body]}], [top[2]] + st[1:]
 
     def _slice(self, st):
